@@ -31,11 +31,8 @@ enum { ECB_E, ECB_D, CBC_E, CBC_D, CFB_E, CFB_D, CTR, MAC, DWP_W, DWP_U, CHE_W, 
 	BDE_E, BDE_D, SDE_E, SDE_D, FMT_E, FMT_D, KRP, HMAC, PBKDF2, BRNG_CTR, BRNG_HMAC, BASH,
 	HOTP_R, HOTP_V, TOTP_R, TOTP_V };
 
-#ifdef VP_CBMC
+/* defined by wipe_model.c (CBMC model, or its native twin in a replay) */
 extern unsigned vp_allocs, vp_frees, vp_wipes, vp_free_notbase, vp_free_uncovered, vp_free_dirty;
-#else
-static unsigned vp_allocs = 1, vp_frees = 1, vp_wipes, vp_free_notbase, vp_free_uncovered, vp_free_dirty;
-#endif
 
 /* n: data length (FMT: number of symbols, PBKDF2: password length, botp: digits), m: second length
  * (DWP/CHE: public data, KRP: m, PBKDF2: iterations, brngHMAC: iv length), len: key length */
